@@ -620,6 +620,11 @@ func genAPIHist(r *core.Rand, tier string, max32 bool, allowHuge ...bool) *APIHi
 		var prev byte
 		if t == hugeTrack {
 			n := r.PickInt(65520, 65536, 70000, 131072)
+			if r.Chance(1, 5) {
+				n = r.PickInt(1<<21-1, 1<<21, 1<<21+1) // the length needs a fourth VLQ byte
+			} else if r.Chance(1, 25) {
+				n = 1<<24 + r.Intn(3) // the chunk length needs its fourth byte
+			}
 			pl := ref.Event{Kind: ref.Meta, Status: 0xFF, MetaType: 0x01, Data: r.Bytes(n)}
 			if r.Chance(1, 2) {
 				pl = ref.Event{Kind: ref.Sysex, Status: 0xF0, Data: append(r.Data7(n), 0xF7)}
